@@ -63,6 +63,10 @@ def run_cfg(case):
     return compare("cfg", cfg_words_up_to_n, cfg_accepts_word, case["cfg"]["T"], case["n"], BC.mk_cfg(case["cfg"]))
 
 
+def run_cfg_deep(case):
+    return compare("cfg", cfg_words_up_to_n, cfg_accepts_word, case["cfg"]["T"], case["n"], BC.mk_cfg(case["cfg"]))
+
+
 def run_tm(case):
     k = case["k"]
     return compare("tm", lambda T, n: tm_words_up_to_n(T, n, k), lambda T, w: tm_accepts_word(T, w, k), case["tm"]["S"], case["n"], BT.mk_tm(case["tm"]), with_generate=False)
@@ -139,6 +143,14 @@ def cfg_cases(draw, tier):
 
 
 @st.composite
+def cfg_deep_cases(draw, tier):
+    three = draw(st.integers(0, 2)) == 0
+    terms = ("a", "b", "c") if three else ("a", "b")
+    spec = draw(st.one_of(GC.recursive_cnf_specs(terms=terms, max_vars=6), GC.mutual_recursion_cnf_specs(terms=terms)))
+    return {"cfg": spec, "n": draw(st.sampled_from([4, 5] if three else [5, 6, 7]))}
+
+
+@st.composite
 def tm_cases(draw, tier):
     return {"tm": draw(GT.tm_specs(max_states=4)), "n": draw(st.sampled_from([0, 1, 2, 3])), "k": draw(st.sampled_from([0, 1, 3, 10, 50, 1000]))}
 
@@ -163,6 +175,8 @@ CLAUSES = [
     Clause("nfa", nfa_cases, run_nfa, quick=600, thorough=5000, rule="random NFAs " + R),
     Clause("regexp", regexp_cases, run_regexp, quick=600, thorough=5000, rule="random expression trees " + R),
     Clause("cfg", cfg_cases, run_cfg, quick=300, thorough=2500, rule="random CNF and arbitrary grammars " + R),
+    Clause("cfg_deep", cfg_deep_cases, run_cfg_deep, quick=120, thorough=1200, watchdog=120,
+           rule="mutually recursive CNF grammars (random with 3-6 variables, and a template of 2-3 mutually recursive variables with base cases of different lengths) over two or three terminals x larger bounds n in {4,...,7}: " + R),
     Clause("tm", tm_cases, run_tm, quick=400, thorough=3000, rule="random TMs x step budgets {0,1,3,10,50,1000} (same budget on both sides) " + R),
     Clause("tm_default_budget", tm_cases, run_tm_default, quick=60, thorough=400, rule="random TMs with the default budget of 1000 steps (the one generate_language uses) " + R),
     Clause("pda", pda_cases, run_pda, quick=350, thorough=3000, rule="random/structured PDAs x closure limits {1,2,5,30,200} (and 1000 in the thorough tier) " + R + "; when a closure exceeds the limit only soundness is asserted"),
